@@ -83,6 +83,8 @@ def cases(tier):
             for si, (drho, dr) in enumerate(steps):
                 if tier == 'quick' and (gi + si) % 2:
                     continue
+                if nr * dr > 12.0 or nrho * drho > 120.0:
+                    continue          # the harness's test functions (exp of a quadratic) overflow far outside the physical range
                 out.append(dict(kind='funcfl', el=el, nrho=nrho, drho=drho, nr=nr, dr=dr))
     # a pair potential with an attractive well cannot be written as an effective charge: refused, or faithful - never silently altered
     for el in EK.UNIVERSE[:2]:
@@ -135,7 +137,7 @@ def run_gulp(case):
 
 
 # --------------------------------------------------------------------------------------------- Excel helpers
-def check_sheet(viol, wb, sheet, first, grid, columns, tag):
+def check_sheet(viol, wb, sheet, first, grid, columns, tag, rel=1e-11):
     """columns: {label: function x -> value}; grid: list of x"""
     if sheet not in wb:
         V(viol, 'excel-sheet-missing', 'no sheet %r: %r' % (sheet, wb['__order__']))
@@ -166,7 +168,7 @@ def check_sheet(viol, wb, sheet, first, grid, columns, tag):
             if ref is None:
                 continue
             v = row[ci]
-            if v is None or abs(v - ref) > 1e-11 * abs(ref) + 1e-300:
+            if v is None or abs(v - ref) > rel * abs(ref) + (1e-9 if rel > 1e-9 else 1e-300):
                 V(viol, 'excel-value:' + tag, 'sheet %s column %s row %d (%s=%r): %r, reference %r' % (sheet, lab, i, first, x, v, ref))
                 break
     return n
@@ -187,7 +189,9 @@ def run_excel(case):
     for a, b, name in case['pots']:
         fn, _n, _d = PK.ref(name, route)
         cols['%s-%s' % tuple(sorted((a, b)))] = (lambda fn, name: lambda x: None if PK.ill_conditioned(name, route, x) else fn(x).v)(fn, name)
-    n = check_sheet(viol, wb, 'Pair', 'r', grid, cols, 'pair')
+    # splined entries come out of a 6x6 / 10x10 linear solve: full float agreement with the independent solver cannot be demanded
+    loose = any(n_ in ('spline_exp', 'spline_buck4', 'buck4') for _a, _b, n_ in case['pots'])
+    n = check_sheet(viol, wb, 'Pair', 'r', grid, cols, 'pair', rel=1e-7 if loose else 1e-11)
     return viol, n
 
 
